@@ -32,6 +32,8 @@ REQUIRED = {
     "mon:filter.grouping-preserved": 1000,
     "mon:sorted.same-tests": 500,
     "mon:sorted.ordered-by-id": 500,
+    "mon:filtered-then-sorted.placed-by-first-remaining-test": 500,
+    "mon:filter.removed-tests-leave-fresh-empty-suites": 500,
     "mon:sorted.valueerror-iff-duplicate": 500,
     "mon:sorted-then-filtered.exactly-the-chosen": 300,
     "mon:run.list-prints-exactly-the-ids": 100,
@@ -137,6 +139,72 @@ def x_tree(ctx, case):
                   lambda: {"got": paths(f), "want": want_paths, **detail()})
     else:
         ctx.count("mon:filter.grouping-preserved")
+    # every removed test leaves its own new, empty TestSuite: using one as the suite it is documented
+    # to be must not show up anywhere else (here, or in the result of another filter_by_ids call)
+    other = filter_by_ids(build(tree, cls, []), keep)
+
+    def empties(obj, acc):
+        try:
+            it = list(iter(obj))
+        except TypeError:
+            return acc
+        if type(obj) is unittest.TestSuite and not it:
+            acc.append(obj)
+        for c in it:
+            empties(c, acc)
+        return acc
+    holes = empties(f, []) + empties(other, [])
+    if holes:
+        from testtools import PlaceHolder
+        holes[0].addTest(PlaceHolder("added-later"))
+        n_here = [t.id() for t in iterate_tests(f)].count("added-later")
+        n_other = [t.id() for t in iterate_tests(other)].count("added-later")
+        ctx.check(len({id(h) for h in holes}) == len(holes) and (n_here, n_other) in ((1, 0), (0, 1)),
+                  "filter.removed-tests-leave-fresh-empty-suites",
+                  lambda: {"empty suites": len(holes), "distinct objects": len({id(h) for h in holes}),
+                           "occurrences of a test added to one of them": (n_here, n_other), **detail()})
+        holes[0]._tests[:] = []
+    else:
+        ctx.count("mon:filter.removed-tests-leave-fresh-empty-suites")
+    # the filtered tree can then be sorted: custom suites are placed by their first REMAINING test
+    kept = [i for i in L if i in keep]
+    if len(set(kept)) == len(kept) and tree[0] != "leaf" and type(f) is unittest.TestSuite:
+        def first_ids(suite):
+            out = {}
+            for child in _top_after_flatten(suite):
+                if hasattr(child, "__iter__"):
+                    ids_ = [t.id() for t in iterate_tests(child)]
+                    out[id(child)] = ids_[0] if ids_ else None
+            return out
+        pre = first_ids(f)
+        try:
+            st2, err3 = sorted_tests(f), None
+        except Exception as e:  # noqa
+            st2, err3 = None, e
+        ok = err3 is None
+        keys_a, keys_b = [], []
+        if ok:
+            for child in st2:
+                if hasattr(child, "__iter__"):
+                    ids_ = [t.id() for t in iterate_tests(child)]
+                    if id(child) not in pre:
+                        ok = False
+                        break
+                    if ids_:
+                        keys_a.append(pre[id(child)])
+                        keys_b.append(ids_[0])
+                    elif keys_a:
+                        ok = False      # an empty custom suite (no id) sorts first
+                else:
+                    keys_a.append(child.id())
+                    keys_b.append(child.id())
+            ok = ok and (keys_a == sorted(keys_a) or keys_b == sorted(keys_b)) and \
+                sorted(t.id() for t in iterate_tests(st2)) == sorted(kept)
+        ctx.check(ok, "filtered-then-sorted.placed-by-first-remaining-test",
+                  lambda: {"error": repr(err3), "keys (before sorting)": keys_a, "keys (after)": keys_b,
+                           "kept": kept, **detail()})
+    else:
+        ctx.count("mon:filtered-then-sorted.placed-by-first-remaining-test")
     # ---- sorted_tests ------------------------------------------------------------------------
     s = build(tree, cls, [])
     customs = {}
@@ -203,6 +271,8 @@ def x_tree(ctx, case):
             keys_pre = keys_post = []
         ctx.check(ok_shape, "sorted.plain-flattened-custom-kept-whole",
                   lambda: {"top": [type(c).__name__ for c in top], **detail()})
+        ctx.check(keys_pre == sorted(keys_pre) or keys_post == sorted(keys_post), "sorted.ordered-by-id",
+                  lambda: {"keys (first id before sorting)": keys_pre, "keys (after)": keys_post, **detail()})
         # custom suites nested inside other custom suites survive as the same objects, too
         present = set()
 
@@ -234,6 +304,17 @@ def x_tree(ctx, case):
                 inner = [t.id() for t in obj]
                 ctx.check(inner == sorted(inner), "sorted.sort_tests-honoured", lambda: {"inner": inner})
     return len(L) >= 2
+
+
+def _top_after_flatten(suite):
+    """The objects sorted_tests orders at top level: leaves and custom suites reached through plain suites."""
+    out = []
+    for c in suite:
+        if type(c) is unittest.TestSuite:
+            out.extend(_top_after_flatten(c))
+        else:
+            out.append(c)
+    return out
 
 
 def _under_custom(root, target, inside=False):
@@ -268,6 +349,15 @@ def x_run(ctx, case):
     sys.modules[modname] = mod
     d = tempfile.mkdtemp(prefix="tvm-c19-")
     try:
+        if case.get("after_failed_import"):
+            # an ordinary run, earlier in the same process, of something that cannot be imported
+            import unittest as _ut
+            junk = io.StringIO()
+            try:
+                TestProgram(module=None, argv=["prog", "tvm_c19_no_such_module_%d" % next(_mod_counter)],
+                            stdout=junk, exit=False)
+            except SystemExit:
+                pass
         out = io.StringIO()
         try:
             TestProgram(module=mod, argv=["prog", "--list", "test_suite"], stdout=out, exit=False)
@@ -462,7 +552,8 @@ def run(ctx):
         L = leaves(tree)
         keep = [x for x in dict.fromkeys(L) if rng.random() < 0.5] + (["absent id"] if rng.random() < 0.3 else [])
         rng.shuffle(keep)
-        ctx.execute("run", {"tree": tree, "keep": keep, "style": rng.randrange(6)})
+        ctx.execute("run", {"tree": tree, "keep": keep, "style": rng.randrange(6),
+                            "after_failed_import": rng.random() < 0.3})
     for i in range(ctx.scale(3, 32)):
         ids = fresh_ids(rng)
         tree = ["plain", [["leaf", next(ids)], ["custom", [["leaf", next(ids)], ["leaf", next(ids)]]],
